@@ -357,7 +357,7 @@ func main() {
 		{"inject", "json", "json", "vendor1.com/cls=x"}, {"inject", "yaml", "", "vendor*/*=*"}, {"inject", "json", "yaml", "vendor1.com/cls=[xy]", "vendor2.org/other=x"},
 		// overlapping patterns: a device matched by several patterns is injected once
 		{"inject", "json", "json", "vendor1.com/cls=*", "vendor1.com/cls=x"}, {"inject", "yaml", "yaml", "vendor*/*=x", "vendor*/*=x", "*/*=*"}}
-	dirLists := [][]string{{"d0", "d1"}, {"d1", "d0"}, {"d1"}, {"d0", "missing", "d1"}}
+	dirLists := [][]string{{"d0", "d1"}, {"d1", "d0"}, {"d1"}, {"d0", "missing", "d1"}, {"d0", "d1", "d0"}, {"d1/", "d0", "d1/."}}
 	var cases []Case
 	for i := 0; i < total; i += step {
 		digits := hx.Digits(int64(i), radix)
@@ -370,7 +370,7 @@ func main() {
 			}
 		}
 		for li, dl := range dirLists {
-			if li > 0 && (i/step)%4 != li {
+			if li > 0 && (i/step)%len(dirLists) != li {
 				continue
 			}
 			for si, sub := range subcommands {
@@ -449,7 +449,7 @@ func main() {
 		pool <- d
 		l.Record(res, func() any { return map[string]any{"case": cases[i], "outcome": res.Outcome} })
 	})
-	r.Rule = fmt.Sprintf("cdi tool: every %d-th of the %d populations of two directories x two slots over %v, 4 directory lists (incl. reversed, single, with a missing directory), %d subcommand/format combinations (devices [-v -o json|yaml], vendors, classes, specs [-v|vendor], dirs, validate, inject with literal and glob patterns, json/yaml OCI files and outputs) and three --spec-dirs spellings: %d process runs; "+
+	r.Rule = fmt.Sprintf("cdi tool: every %d-th of the %d populations of two directories x two slots over %v, 6 directory lists (incl. reversed, single, with a missing directory, with a repeated directory in the same and in another spelling), %d subcommand/format combinations (devices [-v -o json|yaml], vendors, classes, specs [-v|vendor], dirs, validate, inject with literal and glob patterns, json/yaml OCI files and outputs) and three --spec-dirs spellings: %d process runs; "+
 		"validate tool: %d documents (a slice of the C17 space) x {builtin, none, path} x {file, stdin} x {json, yaml}: %d runs. Oracle: the library called in-process on the same directories with the same validator: exit status != 0 iff the library reports cache errors / validation fails; printed device, vendor, class, Spec-path, error-path sets and the injected OCI spec equal the library's. "+
 		"non-trivial = population with at least one device or error", step, total, kinds, len(subcommands), nCDI, len(docs), len(cases)-nCDI)
 	r.Assumptions = []string{"when the tool exits non-zero because of cache errors it prints only the error report; listings are compared only on zero exit", "the default directories (/etc/cdi, /var/run/cdi) are not used: every run passes --spec-dirs",
